@@ -26,8 +26,8 @@ Lemma short_selection_error : forall sn pl e uptodate current rq cspec rep nb,
   canary_failed_rs (r_status uptodate) = false -> N.eqb (r_name current) (r_name uptodate) = false ->
   ca_replicas cspec = Some rep -> resolve_iop rep (es_desired (e_status e)) = Some nb ->
   nb <> zlen (status_canary_nodes (e_status e)) ->
-  snd (select_nodes (r_tmpl uptodate) (ca_antiaffinity cspec) nb (canary_candidate_nodes sn cspec)
-                    (eds_pods sn e) (status_canary_nodes (e_status e))) = false ->
+  snd (select_or_fail sn (r_tmpl uptodate) (ca_antiaffinity cspec) nb (canary_candidate_nodes sn cspec)
+                      (eds_pods sn e) (status_canary_nodes (e_status e))) = false ->
   ep_error pl = true.
 Proof.
   intros sn pl e uptodate current rq cspec rep nb H Ho Hd Hu Hs Hcs Hf Hne Hr Hn Hnb Hshort.
@@ -53,7 +53,7 @@ Proof.
            = status_canary_nodes (e_status e)) by reflexivity.
   rewrite Eprev in Eui.
   apply Z.eqb_neq in Hnb. rewrite Hnb in Eui.
-  destruct (select_nodes _ _ _ _ _ _) as [sel enough]. cbn [snd] in Hshort. subst enough.
+  destruct (select_or_fail _ _ _ _ _ _ _) as [sel enough]. cbn [snd] in Hshort. subst enough.
   unfold with_error in Eui.
   match type of Eui with match ?f with _ => _ end = _ => destruct f end; try discriminate.
   inversion Eui. reflexivity.
@@ -74,8 +74,8 @@ Theorem sync_canary_nodes : forall sn pl st' c',
       ((nb = zlen prev /\ cs_nodes c' = prev) \/
        (nb <> zlen prev /\
         exists enough,
-        select_nodes (r_tmpl uptodate) (ca_antiaffinity cspec) nb (canary_candidate_nodes sn cspec)
-                     (eds_pods sn e) prev = (cs_nodes c', enough) /\ (enough = false -> ep_error pl = true)))).
+        select_or_fail sn (r_tmpl uptodate) (ca_antiaffinity cspec) nb (canary_candidate_nodes sn cspec)
+                       (eds_pods sn e) prev = (cs_nodes c', enough) /\ (enough = false -> ep_error pl = true)))).
 Proof.
   intros sn pl st' c' H Hin Hc.
   destruct (written_status_is_result _ _ _ H Hin) as [e [uptodate [current [rq [Ho [Hd [Hu [Hs [h [ann' [ws Hres]]]]]]]]]]].
@@ -121,9 +121,11 @@ Proof.
   destruct (sync_canary_nodes _ _ _ _ H Hin Hc) as [e [Ho [[_ Hsame] | [u [cspec [_ [_ [_ [_ [rep [nb [_ [_ Hcases]]]]]]]]]]]]].
   - specialize (Hnd e Ho). unfold status_canary_nodes in Hnd. rewrite Hsame in Hnd. exact Hnd.
   - destruct Hcases as [[_ ->] | [_ [en [Hsel _]]]]; [apply Hnd; assumption|].
-    replace (cs_nodes c') with (fst (select_nodes (r_tmpl u) (ca_antiaffinity cspec) nb (canary_candidate_nodes sn cspec)
-                                                  (eds_pods sn e) (status_canary_nodes (e_status e)))) by (rewrite Hsel; reflexivity).
-    apply select_nodup. apply Hnd; assumption.
+    unfold select_or_fail in Hsel. destruct (es_fail_list_cluster sn).
+    + injection Hsel as <- _. apply Hnd; assumption.
+    + replace (cs_nodes c') with (fst (select_nodes (r_tmpl u) (ca_antiaffinity cspec) nb (canary_candidate_nodes sn cspec)
+                                                    (eds_pods sn e) (status_canary_nodes (e_status e)))) by (rewrite Hsel; reflexivity).
+      apply select_nodup. apply Hnd; assumption.
 Qed.
 
 (** whenever the reconcile changes the list, every name on the new list is a node that exists, matches
@@ -144,6 +146,8 @@ Proof.
     rewrite Ho in Ho'; inversion Ho'; subst e'.
   - exfalso. apply Hchg. unfold status_canary_nodes. rewrite Hsame. reflexivity.
   - destruct Hcases as [[_ Heq] | [_ [en [Hsel Herr]]]]; [contradiction|].
+    unfold select_or_fail in Hsel.
+    destruct (es_fail_list_cluster sn); [injection Hsel as Hp _; exfalso; apply Hchg; symmetry; exact Hp|].
     specialize (Hnd e Ho).
     set (prev := status_canary_nodes (e_status e)) in *.
     assert (Hf : cs_nodes c' = fst (select_nodes (r_tmpl u) (ca_antiaffinity cspec) nb (canary_candidate_nodes sn cspec)
